@@ -1078,6 +1078,8 @@ async fn op_send(w: &mut World, log: &mut Log, st: &mut Stats, k: u64, desc: &st
 ///   `schal:<name>:<conn>`  a `ServerChallenge` carrying the challenge the node issued on `from`
 ///   `cchal`                a `ChallengeReply` carrying the last digest the node sent on `from`
 ///                          (and, as the peer's own challenge, the challenge the node issued on `from`)
+///   `cguess`               a `ChallengeReply` carrying the challenge the node issued on `from` and a digest
+///                          computed with the peer's own (wrong) cookie
 ///   `sack`                 a `ChallengeAck` carrying the last digest the node sent on `from`
 /// Logged as `relay <k> <from> <kind> frame=<the frame written> …` (the driver replays `frame=` as
 /// an ordinary frame; on replay the frame is rebuilt from this run's values).
@@ -1092,6 +1094,9 @@ async fn op_relay(w: &mut World, log: &mut Log, st: &mut Stats, k: u64, from: u6
         (["cchal"], Some(ch), Some(d)) => format!("cchal:{ch}:{d}"),
         (["cchal"], None, Some(d)) => format!("cchal:7:{d}"),
         (["sack"], _, Some(d)) => format!("sack:{d}"),
+        // wave 2: a `ChallengeReply` whose challenge is the one the node issued on `from` and whose digest
+        // the peer computed with a cookie of its own (it has no digest of the node to copy)
+        (["cguess"], Some(ch), _) => format!("cchal:{ch}:{}", hex(&digest(&wrong_cookie(), ch))),
         _ => {
             log.rec(format!("relay {k} {from} {kind} frame=-"), "nothing-to-relay");
             return vec![];
@@ -1629,7 +1634,7 @@ async fn relay_case(log: &mut Log, st: &mut Stats, rng: &mut Rng, case_no: u64) 
     );
     w.spawn_probe(true, Some(("sc", "g1"))).await;
     w.spawn_probe(false, Some(("sc", "g1"))).await;
-    let variant = rng.below(4);
+    let variant = rng.below(6);
     st.bump(&format!("relay_variant_{variant}"));
     let same_name = rng.chance(1, 4);
     let n0 = "evil@h".to_string();
@@ -1650,6 +1655,42 @@ async fn relay_case(log: &mut Log, st: &mut Stats, rng: &mut Rng, case_no: u64) 
             }
             op_relay(&mut w, log, st, 0, 1, "cchal").await;
             op_relay(&mut w, log, st, 1, 0, "sack").await;
+        }
+        4 | 5 => {
+            // wave 2: the node never dials the peer — S0 = connection 0, S1 = connection 1, BOTH server-side
+            // on the node (Lean: C17.inbound_only_adversary_is_never_authenticated). A server-side session
+            // sends its only digest in the step that authenticates it, so there is nothing to relay; the
+            // peer tries every relay kind all the same, in a PRNG order, optionally while an honest peer
+            // (connection 2, knows the cookie) authenticates next to it.
+            op_open(&mut w, log, st, 0, true, ext).await;
+            op_open(&mut w, log, st, 1, true, ext).await;
+            op_send(&mut w, log, st, 0, &format!("name:{n0}:pc:{}", rng.below(3))).await;
+            op_send(&mut w, log, st, 1, &format!("name:{n1}:pc2:{}", rng.below(3))).await;
+            if variant == 5 {
+                op_open(&mut w, log, st, 2, true, ext).await;
+                good_handshake(&mut w, log, st, rng, 2, true, "good@h").await;
+            }
+            // wave 2 (inertness of an unauthenticated session, tie of the model's `monitoring` guard): a
+            // remotable local actor appears (and joins a group) / disappears while S0 and S1 are alive and
+            // still waiting for a digest: the real pid-registry / pg notifications go out, and nothing
+            // may reach these sessions (oracle clause effect-before-authentication on the `local` op)
+            if rng.chance(2, 3) {
+                st.bump("lts_local_unauthenticated");
+                op_local(&mut w, log, st, "spawn", Some(2 * rng.below(2))).await;
+                if rng.chance(1, 2) {
+                    op_local(&mut w, log, st, "term", None).await;
+                }
+            }
+            for _ in 0..rng.range(3, 6) {
+                let (k, from) = if rng.chance(1, 2) { (0, 1) } else { (1, 0) };
+                match rng.below(5) {
+                    0 => op_relay(&mut w, log, st, k, from, "cchal").await,
+                    1 => op_relay(&mut w, log, st, k, from, "sack").await,
+                    2 => op_relay(&mut w, log, st, k, from, "cguess").await,
+                    3 => op_relay(&mut w, log, st, k, k, "cguess").await,
+                    _ => op_relay(&mut w, log, st, k, from, "schal:evil3@h:pc3").await,
+                };
+            }
         }
         _ => {
             // C0 = connection 0, C1 = connection 1, both client-side on the node
